@@ -880,9 +880,39 @@ class Gen:
         and the following random steps keep addressing it (focus).  Flags that should have been reset on the way
         (stale envelope arrays, level tags, indices) show up in what comes next."""
         w = v["w"]
-        if not w.envs or len(w.subs) < 3:
+        if not w.envs:
             return []
         e = str(self.ch(w.envs))
+        if self.p(0.35):
+            # variant: the envelope stays on its own - combined, expanded, operated on (with automatic contraction on
+            # the matrix path brings it back to a vector, with it off it stays a matrix), then one part is measured
+            # or traced separately: every inline level change on the way is visible in the survivor's state
+            pre = [{"k": "combine", "via": "env", "env": e, "targets": []}]
+            if self.p(0.8):
+                pre.append({"k": "expand", "via": "env", "env": e, "targets": []})
+                if self.p(0.5):
+                    pre.append({"k": "expand", "via": "env", "env": e, "targets": []})
+            for _ in range(int(self.rng.integers(0, 3)) if self.p(0.3) else 1):
+                t = e + (".f" if self.p(0.5) else ".p")
+                op = {"fam": "fock", "type": "PhaseShift", "phi": self.angle()} if t.endswith(".f") else self.pol_op()
+                op.pop("nonunitary", None)
+                if op.get("type") == "Custom" and t.endswith(".p"):
+                    op = {"fam": "pol", "type": "RY", "theta": self.angle()}
+                st = {"k": "apply", "op": op, "targets": [t], "via": str(self.ch(["env", "state"]))}
+                if st["via"] == "env":
+                    st["env"] = e
+                pre.append(st)
+            part = e + (".f" if self.p(0.5) else ".p")
+            x = self.rng.random()
+            if x < 0.6:
+                pre.append({"k": "measure", "via": "env", "env": e, "targets": [part], "sep": True, "destr": bool(self.p(0.5))})
+            elif x < 0.8:
+                pre.append({"k": "trace_out", "via": "env", "env": e, "targets": [part]})
+            self.focus = {e + ".f", e + ".p"}
+            self.sticky_focus = 3
+            return pre
+        if len(w.subs) < 3:
+            return []
         others = [n for n in w.subs if not n.startswith(e + ".")]
         if not others:
             return []
@@ -899,34 +929,6 @@ class Gen:
             pre = [{"k": "composite", "name": "CE0", "args": [str(u) for u in units]},
                    {"k": "combine", "via": "ce", "ce": "CE0", "targets": [e + ".f", e + ".p"] if self.p(0.5) else [e + ".p", e + ".f"]},
                    {"k": "combine", "via": "ce", "ce": "CE0", "targets": [o1, o2]}]
-            self.focus = {e + ".f", e + ".p"}
-            self.sticky_focus = 3
-            return pre
-        if self.p(0.3):
-            # variant: the envelope stays on its own - combined, expanded, operated on (with automatic contraction on
-            # the matrix path brings it back to a vector, with it off it stays a matrix), then one part is measured
-            # or traced separately: every inline level change on the way is visible in the survivor's state
-            pre = [{"k": "combine", "via": "env", "env": e, "targets": []}]
-            if self.p(0.6):
-                pre.append({"k": "expand", "via": "env", "env": e, "targets": []})
-                if self.p(0.5):
-                    pre.append({"k": "expand", "via": "env", "env": e, "targets": []})
-            for _ in range(int(self.rng.integers(0, 3))):
-                t = e + (".f" if self.p(0.5) else ".p")
-                op = {"fam": "fock", "type": "PhaseShift", "phi": self.angle()} if t.endswith(".f") else self.pol_op()
-                op.pop("nonunitary", None)
-                if op.get("type") == "Custom" and t.endswith(".p"):
-                    op = {"fam": "pol", "type": "RY", "theta": self.angle()}
-                st = {"k": "apply", "op": op, "targets": [t], "via": str(self.ch(["env", "state"]))}
-                if st["via"] == "env":
-                    st["env"] = e
-                pre.append(st)
-            part = e + (".f" if self.p(0.5) else ".p")
-            x = self.rng.random()
-            if x < 0.6:
-                pre.append({"k": "measure", "via": "env", "env": e, "targets": [part], "sep": True, "destr": bool(self.p(0.5))})
-            elif x < 0.8:
-                pre.append({"k": "trace_out", "via": "env", "env": e, "targets": [part]})
             self.focus = {e + ".f", e + ".p"}
             self.sticky_focus = 3
             return pre
@@ -1016,6 +1018,64 @@ class Gen:
         self.sticky_focus = 4
         return pre
 
+    def refuse_first_prefix(self, v):
+        """scripted prefix: the very first use of an operation object is a request that must be refused (a fixed-size
+        custom Fock operator on a space holding more photons than it has levels - through the subsystem, its combined
+        envelope or a composite handle -, or an operation on the wrong kind of subsystem); the same object is then
+        applied to a target it fits.  A refusal must leave no trace in the object (C15)."""
+        w = v["w"]
+        seen = getattr(self, "ops_seen", None)
+        if seen is None:
+            seen = self.ops_seen = []
+        focks = []
+        for n in v["live"]:
+            if w.kind(n) == "F":
+                nm, _ = self.support(v, n)
+                if nm is not None:
+                    focks.append((n, nm, v["dims"].get(n) or 0))
+        pre = []
+        pairs = []
+        for b, nb, _ in focks:
+            for sm, ns, ds in focks:
+                lo = max(ns + 1, ds, 2)
+                if sm != b and lo <= nb:
+                    pairs.append((b, sm, lo, nb))
+        if pairs and self.p(0.75):
+            b, sm, lo, nb = pairs[int(self.rng.integers(0, len(pairs)))]
+            k = int(self.rng.integers(lo, nb + 1))
+            op = {"fam": "fock", "type": "Custom", "operator": c2j(self.unitary(k))}
+            seen.append(op)
+            j = len(seen) - 1
+            eb = w.env_of(b)
+            if eb is not None and self.p(0.7):
+                if self.p(0.8):
+                    pre.append({"k": "combine", "via": "env", "env": eb, "targets": []})
+                via = {"via": "env", "env": eb}
+            else:
+                via = {"via": "state"}
+            st = {"k": "apply", "op": op, "op_id": j, "targets": [b], "fault": "refused-reuse", "why": "too-small-operator"}
+            st.update(via)
+            pre.append(st)
+            es = w.env_of(sm)
+            if es is not None and self.p(0.4):
+                pre.append({"k": "combine", "via": "env", "env": es, "targets": []})
+                via2 = {"via": "env", "env": es}
+            else:
+                via2 = {"via": "state"}
+            st2 = {"k": "apply", "op": op, "op_id": j, "targets": [sm]}
+            st2.update(via2)
+            pre.append(st2)
+            return pre
+        pols = [n for n in v["live"] if w.kind(n) == "P"]
+        fk = [n for n, _, _ in focks]
+        if pols and fk:
+            op = {"fam": "pol", "type": self.ch(POL_ROT), "theta": self.angle()}
+            seen.append(op)
+            j = len(seen) - 1
+            pre.append({"k": "apply", "op": op, "op_id": j, "targets": [str(self.ch(fk))], "via": "state", "fault": "refused-reuse", "why": "wrong-kind"})
+            pre.append({"k": "apply", "op": op, "op_id": j, "targets": [str(self.ch(pols))], "via": "state"})
+        return pre
+
     def same_kind_prefix(self, v):
         """scripted prefix: a three-operand expression operation over three subsystems of one kind (three modes or
         three polarizations) of which one already shares a product space with a bystander while the other two are
@@ -1077,6 +1137,8 @@ class Gen:
                            {"k": "composite", "name": f"CE{n + 2}", "args": [b, f"CE{n + 1}"]}]
         elif not runner.records and self.opts.get("lifecycle") and self.p(self.opts["lifecycle"]):
             self.prefix = self.lifecycle_prefix(v)
+        elif not runner.records and self.opts.get("refuse_first") and self.p(self.opts["refuse_first"]):
+            self.prefix = self.refuse_first_prefix(v)
         elif not runner.records and self.opts.get("weak_prefix") and self.p(self.opts["weak_prefix"]):
             self.prefix = self.weak_bs_prefix(v)
         elif not runner.records and self.p(self.opts.get("big_space", 0.12)):
